@@ -137,7 +137,7 @@ func c01(c *q.Ctx) {
 	}
 	ul := c.Fn(st + "(*State).updateLatestBlockid")
 	if ul != nil {
-		c.EffectExists(ul, "Batch.Put", 0, "append(\"M\",\"pointer\")", nil, "the pointer row is staged in the caller's batch")
+		c.EffectExists(ul, "Batch.Put", 0, "\"Mpointer\"", nil, "the pointer row is staged in the caller's batch")
 		c.ArgIs(ul, "Batch.Put", 1, "p1", 1, "the persisted pointer is the new block id")
 		c.ArgIs(ul, "Batch.Put", -1, "p2", 1, "staged in the caller's batch")
 		c.ArgIs(ul, "Batch.Write", -1, "p2", 1, "the caller's batch is the one written")
